@@ -87,4 +87,13 @@ PROPS = {
         "assumptions": ["a present option with an empty value is Go-nil (what decoding produces); programmatically stored empty non-nil values are outside the tie"],
         "trusted_base": ["modelled, not verified: dhcpv4 typed accessors and the value types' FromBytes"],
     },
+    "C15": {
+        "coq_files": BASE + ["V4/", "V6/Model.v", "Props/C15.v"],
+        "rule": "source packets with any opcode/flags/addresses and every combination of options 82, 61, 54, 55, 53, 50 absent / present-empty / present; "
+                "the 6 exported New* builders and plain New, with 0..4 user modifiers drawn from 17 exported With* functions (including ones that collide with defaults); "
+                "result fields and options vs the model fold; direct oracles for the reply and request-from-offer rules on the real code; non-trivial = distinct case",
+        "assumptions": ["the random transaction id of builders that draw one is pinned by a leading WithTransactionID so that results are comparable",
+                        "option codes passed to WithRequestedOptions are of the library's own code type (its constants/decoder); OptionCodeList.Has compares interface values"],
+        "trusted_base": ["modelled, not verified: dhcpv4/modifiers.go and the New* builders"],
+    },
 }
